@@ -339,6 +339,76 @@ func c01Commands(ctx *core.Ctx) {
 			ctx.Bad("V19", "testscript#operand-loops", token.NoPos, "no built-in iterates over its operands")
 		}
 	}
+	// ---- V20-V22: the state the next line sees (round 5)
+	ctx.Rule("V20", "stdin is consumed by one exec: every return of the foreground exec reached after the attempt to start the command passes the store that clears TestScript.stdin; a start failure that returns early leaves the text for the next exec and changes that line's verdict", 1)
+	ctx.Rule("V21", "relative paths resolve against the current directory: in Chdir and MkAbs the non-absolute operand is joined to TestScript.cd (not to the work directory root)", 2)
+	ctx.Rule("V22", "archive entries replace earlier ones: writeFile opens with O_WRONLY|O_CREATE|O_TRUNC whatever the exclusive flag, adding O_EXCL exactly when it is set", 1)
+	if ex := p.Func("testscript", "(*TestScript).exec"); ex != nil {
+		g := graph(p, ex)
+		n := 0
+		// the point at which the command was started (or failed to start) with the script's stdin text
+		var handed ssa.Instruction
+		g.Instrs(func(i ssa.Instruction) {
+			if handed != nil {
+				return
+			}
+			if c, ok := i.(*ssa.Call); ok && ssax.CalleeName(&c.Call) == "(*os/exec.Cmd).Start" {
+				handed = c
+			}
+		})
+		clears := func(i ssa.Instruction) bool {
+			st, ok := i.(*ssa.Store)
+			return ok && isFieldAddrOf("stdin")(st.Addr) && isConstStr("")(st.Val)
+		}
+		if handed != nil {
+			for _, r := range g.Returns() {
+				if !g.Dominates(handed, r) {
+					continue
+				}
+				n++
+				hit, _ := g.ReachableWithout(ssax.PointAfter(handed), func(i ssa.Instruction) bool { return i == ssa.Instruction(r) }, clears)
+				ctx.Check(hit == nil, "V20", "testscript.exec#stdin-cleared"+itoa(n), r.Pos(), "this return of exec, reached after the attempt to start the command, lies behind the store that clears TestScript.stdin")
+			}
+		}
+		if n == 0 {
+			ctx.Note("V20", "testscript.exec#stdin-cleared", ex.Pos(), "exec does not start a command; clause not decided")
+		}
+	}
+	for _, nm := range []string{"Chdir", "MkAbs"} {
+		f := p.Func("testscript", "(*TestScript)."+nm)
+		if f == nil || len(f.Params) < 2 {
+			continue
+		}
+		g := graph(p, f)
+		n := 0
+		for _, j := range g.Calls("path/filepath.Join") {
+			el := variadicElems(j.Call.Args[0])
+			if len(el) != 2 || el[1] != ssa.Value(f.Params[1]) {
+				continue
+			}
+			n++
+			ctx.Check(isFieldLoad("cd")(el[0]), "V21", "testscript."+nm+"#base"+itoa(n), j.Pos(), "the relative operand is joined to TestScript.cd")
+		}
+		if n == 0 {
+			ctx.Note("V21", "testscript."+nm+"#base", f.Pos(), "no filepath.Join(base, operand) found; clause not decided")
+		}
+	}
+	if wf := p.Func("testscript", "writeFile"); wf != nil && len(wf.Params) == 4 {
+		g := graph(p, wf)
+		n := 0
+		for _, o := range g.Calls("os.OpenFile") {
+			n++
+			base := osFlag(p, "O_WRONLY") | osFlag(p, "O_CREATE") | osFlag(p, "O_TRUNC")
+			vals, okV := ssax.PossibleInts(o.Call.Args[1])
+			ok := okV && len(vals) > 0
+			for _, v := range vals {
+				if v != base && v != base|osFlag(p, "O_EXCL") {
+					ok = false
+				}
+			}
+			ctx.Check(ok, "V22", "testscript.writeFile#flags"+itoa(n), o.Pos(), "open flags are O_WRONLY|O_CREATE|O_TRUNC, plus O_EXCL exactly when exclusive creation is asked for")
+		}
+	}
 	// ---- V17: skip checks the status of background commands first
 	ctx.Rule("V17", "skip settles background commands like wait does: on the way to T.Skip the background commands are waited for with their exit status checked (waitBackground(true), directly or through the wait command)", 1)
 	if sk := cmds["skip"]; sk != nil {
